@@ -32,6 +32,9 @@ class C17(Prop):
             "characters and embedded NULs; decode: 40^k-1,40^k,40^k+1 for k=0..9, 40^9..2^48-1 sampled, broadcast, random addresses; "
             "non-trivial = callsign length >= 2 or address >= 40; distinct = distinct inputs")
 
+    def setup_drivers(self):
+        return [self.impl_driver(None), core.build_cpp("drv_modulator", ["drv_modulator.cpp"], extra_inc=[core.HARNESS + "/stub"], deps=["stub/codec2/codec2.h"])]
+
     def run(self, ctx):
         exe = self.impl_driver(ctx)
         rng = ctx.rng
@@ -106,6 +109,22 @@ class C17(Prop):
             ctx.traces += len(enc_lines) + len(dec_lines)
         ctx.sample({"op": enc_lines[100], "impl": impl[100]})
         ctx.sample({"op": dec_lines[-1], "impl": dimpl[-1]})
+        # every place that turns a callsign into an address must be the codec: M17Modulator's private helper (constructor and setters), exhaustively
+        # for all callsigns of length 1..3 (1..4 thorough), against base-40 computed independently in the harness
+        modexe = core.build_cpp("drv_modulator", ["drv_modulator.cpp"], extra_inc=[core.HARNESS + "/stub"], deps=["stub/codec2/codec2.h"])
+        sw = [f"mod_addr_sweep {n} {m}" for n in ((1, 2, 3) if quick else (1, 2, 3, 4)) for m in (0, 1)]
+        for ln, o in zip(sw, ctx.run_impl(modexe, sw, "modulator-address", timeout=900)):
+            f = o.split()
+            ctx.count(ln, nontrivial=True)
+            if len(f) == 3:
+                ctx.evaluations += int(f[0])
+                ctx.stat("modulator-address:callsigns", int(f[0]))
+                if int(f[1]):
+                    k = int(f[2]); n = int(ln.split()[1]); cs = ""
+                    for _ in range(n):
+                        cs += ALPHA[k % 39]; k //= 39
+                    ctx.violate("modulator-address", f"M17Modulator ({'setters' if ln.endswith('1') else 'constructor'}) stores a wrong address for {f[1]} of {f[0]} callsigns of length {n}; first: {cs!r}",
+                                {"stream": "modulator-address", "ops": [ln], "reply": o, "first_callsign": cs})
         if not quick:
             out = ctx.run_impl(exe, ["call_sweep 4"], "call-sweep")
             f = out[0].split()
